@@ -147,9 +147,11 @@ func buildMem(target, param string) (*memVictim, error) {
 	}
 	var err error
 	if mv.victim, mv.victimAsk, err = layer(vb, va, vs, 0); err != nil {
+		bgCancel()
 		return nil, err
 	}
 	if mv.honest, mv.honestAsk, err = layer(hb, ha, hs, 1); err != nil {
+		bgCancel()
 		return nil, err
 	}
 	mv.victimTop = mv.victim.LocalAddrs()[0]
@@ -490,9 +492,9 @@ type parseOnly struct {
 
 func (s parseOnly) Tell(context.Context, stack.Addr, p2p.IOVec) error { return nil }
 func (s parseOnly) Receive(context.Context, func(stack.Msg)) error    { return p2p.ErrClosed }
-func (s parseOnly) LocalAddrs() []stack.Addr                           { return nil }
-func (s parseOnly) MTU() int                                           { return 0 }
-func (s parseOnly) Close() error                                       { return nil }
+func (s parseOnly) LocalAddrs() []stack.Addr                          { return nil }
+func (s parseOnly) MTU() int                                          { return 0 }
+func (s parseOnly) Close() error                                      { return nil }
 func (s parseOnly) ParseAddr(x []byte) (stack.Addr, error)            { return s.parse(x) }
 
 // runDHTCase: packets are interpreted as operations on a DHT node with small caches.
@@ -750,7 +752,7 @@ func TestC08Parsers(t *testing.T) {
 }
 
 func hexStr(b []byte) string { return hex.EncodeToString(b) }
-func ptr[T any](v T) *T     { return &v }
+func ptr[T any](v T) *T      { return &v }
 
 func TestC08Session(t *testing.T) {
 	const sub = "C08.p2pke_session_channel"
